@@ -495,6 +495,28 @@ func oneRound(t *rapid.T, tr *transcript) {
 		o7 := make([]byte, 33)
 		_, _ = x.Read(o7)
 		tr.emit("k12.Draft10Sum+chunked", cls, [][]byte{msg, cust, {byte(cut), byte(cut >> 8), byte(cut >> 16)}}, [][]byte{o5, o6, o7})
+		// clone in the middle of the input, then let both branches diverge
+		a := k12.NewDraft10(cust)
+		_, _ = a.Write(msg[:cut])
+		b := a.Clone()
+		tailA := vlib.Bytes(t, 0, 9000, "tailA")
+		tailB := vlib.Bytes(t, 1, 300, "tailB")
+		_, _ = b.Write(tailB)
+		_, _ = a.Write(tailA)
+		_, _ = a.Write(msg[cut:])
+		_, _ = b.Write(msg[cut:])
+		oa, ob := make([]byte, 64), make([]byte, 64)
+		_, _ = b.Read(ob)
+		_, _ = a.Read(oa)
+		sa := sha3.NewShake128()
+		_, _ = sa.Write(msg[:cut])
+		sb := sa.Clone()
+		_, _ = sb.Write(tailB)
+		_, _ = sa.Write(tailA)
+		osa, osb := make([]byte, 64), make([]byte, 64)
+		_, _ = sb.Read(osb)
+		_, _ = sa.Read(osa)
+		tr.emit("k12.Clone+diverge", cls+"clone", [][]byte{msg, cust, tailA, tailB, {byte(cut), byte(cut >> 8), byte(cut >> 16)}}, [][]byte{oa, ob, osa, osb})
 	}
 	{
 		turbo := rapid.Bool().Draw(t, "turbo")
